@@ -334,8 +334,6 @@ class Extract:
             return TRUE
         k = c.get("k")
         if k == "lit" and c.get("t") == "bool":
-            if getattr(self, "_flip", False):
-                return FALSE if c.get("v") else TRUE
             return TRUE if c.get("v") else FALSE
         if k == "block" and not c.get("stmts") and c.get("expr") is not None:
             return self.cond(c["expr"], env)
@@ -459,6 +457,30 @@ class Extract:
             return self.opq(init)
         if p.get("k") in ("pts", "pstruct", "ppath"):
             return self.pat_cond(p, init, env)
+        i0 = peel(init)
+        if isinstance(i0, dict) and i0.get("k") == "local":
+            a_ = env.get(i0["id"])
+            if a_ and a_[0] == "value":
+                i0 = peel(a_[1])
+            else:
+                from .facts import CN_INIT
+                if CN_INIT.get(i0.get("name") or "") is not None:
+                    i0 = peel(CN_INIT[i0["name"]])
+        if p.get("k") == "ptup" and isinstance(i0, dict) and i0.get("k") == "tup" and \
+                len(p.get("pats") or []) == len(i0.get("es") or []):
+            # if let (P, Q) = (a, b): component-wise
+            out = TRUE
+            for q, e_ in zip(p["pats"], i0["es"]):
+                qq = q
+                while isinstance(qq, dict) and qq.get("k") == "pref":
+                    qq = qq.get("pat")
+                if not isinstance(qq, dict) or qq.get("k") in ("_",):
+                    continue
+                if qq.get("k") == "bind":
+                    self.bind_pat(qq, e_, env)
+                    continue
+                out = f_and(out, self.letx({"k": "letx", "pat": qq, "init": e_}, env))
+            return out
         return self.opq(c)
 
     def bind_pat(self, pat, init, env):
@@ -819,6 +841,55 @@ class Extract:
             out = f_or(out, tail)
         return out
 
+    def _retval(self, e, env):
+        """condition under which a `return e` returns true (false when the false-returns are being collected)"""
+        f = self.cond(e, env)
+        return f_not(f) if getattr(self, "_flip", False) else f
+
+    def rf_for_loop(self, s, cur, env, acc):
+        """a `for` inside a predicate: `if c(x) { return true }` is any(c); `if c(x) { return false }` lets the
+        rest run only when all(!c). Same atoms as the iterator spelling (`ANY(..)` / `ALL(..)` over X[*])."""
+        pat = s.get("pat") or {}
+        if pat.get("k") == "ptup" and pat.get("pats"):
+            pat = pat["pats"][-1]
+        while isinstance(pat, dict) and pat.get("k") == "pref":
+            pat = pat.get("pat")
+        if not (isinstance(pat, dict) and pat.get("k") == "bind"):
+            return None
+        if any(x.get("k") in ("assign", "assignop") for x in walk(s["body"])):
+            return None
+        base = s.get("iter")
+        while isinstance(base, dict) and ((base.get("k") == "mcall" and base.get("m") in ("iter", "into_iter", "enumerate"))
+                                          or base.get("k") == "ref"):
+            base = base["recv"] if base.get("k") == "mcall" else base["e"]
+        pl = self.place(base, env) or self.value_text(base, env)
+        e2 = dict(env)
+        e2[pat["id"]] = ("place", pl + "[*]")
+        t_acc, f_acc = [], []
+        self._rf(s["body"], TRUE, dict(e2), t_acc)
+        self._flip = True
+        try:
+            self._rf(s["body"], TRUE, dict(e2), f_acc)
+        finally:
+            self._flip = False
+        t = FALSE
+        for x in t_acc:
+            t = f_or(t, x)
+        f_ = FALSE
+        for x in f_acc:
+            f_ = f_or(f_, x)
+        if len(atoms_of(t) | atoms_of(f_)) > 10:
+            return None
+        if t != FALSE and f_ == FALSE:
+            a = self.atom("ANY(%s)" % canon(t))
+            acc.append(f_and(cur, a))
+            return f_and(cur, f_not(a))
+        if f_ != FALSE and t == FALSE:
+            return f_and(cur, self.atom("ALL(%s)" % canon(f_not(f_))))
+        if t == FALSE and f_ == FALSE:
+            return cur
+        return None
+
     def _rf(self, n, pc, env, acc):
         """returns the formula of the block's value (None if it diverges)"""
         if n is None:
@@ -847,7 +918,7 @@ class Extract:
                     self.do_let(s, env)
                     continue
                 if s.get("k") == "ret":
-                    acc.append(f_and(cur, self.cond(s.get("e"), env)))
+                    acc.append(f_and(cur, self._retval(s.get("e"), env)))
                     return None
                 if s.get("k") == "if":
                     cc = self.cond(s["cond"], env)
@@ -897,7 +968,7 @@ class Extract:
                         acc.append(f_and(cur, self.atom("OPQ(loop:%s)" % canon_or(inner))))
                     return FALSE     # a loop in tail position has no boolean value; its early returns are in acc
                 if e.get("k") == "ret":
-                    acc.append(f_and(cur, self.cond(e.get("e"), env)))
+                    acc.append(f_and(cur, self._retval(e.get("e"), env)))
                     return None
                 if e.get("k") == "if":
                     cc = self.cond(e["cond"], env)
@@ -916,7 +987,7 @@ class Extract:
             self._cur_out = cur
             return TRUE if getattr(self, "_unit_blocks", True) and n.get("stmts") else None
         if k == "ret":
-            acc.append(f_and(pc, self.cond(n.get("e"), env)))
+            acc.append(f_and(pc, self._retval(n.get("e"), env)))
             return None
         return f_and(pc, self.cond(n, env))
 
@@ -1110,6 +1181,20 @@ class Extract:
                 env[p["id"]] = ("flag",)
         self.visiting.add(main["path"])
         self.walk(main["body"], TRUE, env, main)
+        # rule functions handed around as values (a table of fn pointers run in a loop) are run as well: each is
+        # entered under the path condition of the dispatcher's entry
+        for n in walk(main["body"]):
+            if n.get("k") == "def" and n.get("dk") in ("assoc_fn", "fn"):
+                hb = self.F.body_by_path.get(n.get("def"))
+                if hb is not None and "body" in hb and not hb.get("exp") and hb["path"] not in self.visiting and \
+                        "SwiftValidationError" in (hb.get("output") or "") and \
+                        (hb.get("impl_self") or "").startswith("messages::"):
+                    self.visiting.add(hb["path"])
+                    fenv = {}
+                    for p in hb.get("params") or []:
+                        if p.get("k") == "bind" and p.get("name") == "self":
+                            pass
+                    self.walk(hb["body"], TRUE, fenv, hb)
         return self.sites
 
 
